@@ -74,31 +74,22 @@ theorem render_eq6 (paras : List Dep5.Para) (seps : List Nat) (hs : ∀ n ∈ se
 
 /-! ### the facts the line-tracking loop needs, from the DEP-5 grammar -/
 
-theorem conts_ok (f : Dep5.Field) (h : fieldOk f = true) : ∀ l ∈ f.conts, tlineOk l = true := by
+theorem conts_ok (f : Dep5.Field) (h : fieldOk f = true) : ∀ l ∈ f.conts, tlineOk l = true ∨ itemOk l = true := by
   intro l hl
+  have h0 := h
   rcases kind_cases f h with hk | hk | hk | hk | hk | hk | hk <;>
     simp only [fieldOk, hk, Bool.and_eq_true, Bool.not_eq_true', List.all_eq_true, beq_iff_eq, Bool.or_eq_true,
       List.isEmpty_eq_false_iff] at h
   · have : f.conts = [] := List.isEmpty_iff.mp h.2.2
     rw [this] at hl; cases hl
-  · obtain ⟨⟨hk0, hss⟩, hdot⟩ := h.2.2 l hl
-    have hs := Props.C09.ss_of _ hss
-    unfold tlineOk; rw [hk0]
-    have hne : l.content.isEmpty = false := by cases hc : l.content <;> simp_all [hs.ne]
-    simp [hne, hs.pl, hs.tr, hdot]
-  · obtain ⟨⟨hk0, hss⟩, hdot⟩ := h.2.2 l hl
-    have hs := Props.C09.ss_of _ hss
-    unfold tlineOk; rw [hk0]
-    have hne : l.content.isEmpty = false := by cases hc : l.content <;> simp_all [hs.ne]
-    simp [hne, hs.pl, hs.tr, hdot]
+  · exact Or.inr (h.2.2 l hl)
+  · exact Or.inr (h.2.2 l hl)
   · have := h.2.2
     simp only [blockOk, Bool.and_eq_true, List.all_eq_true] at this
-    exact this.1.1 l hl
-  · have := h.2.1
-    simp only [blockOk, Bool.and_eq_true, List.all_eq_true] at this
-    exact this.1.1 l hl
-  · exact (h.2.2 l hl).2
-  · exact (h.2.2 l hl).2
+    exact Or.inl (this.1.1 l hl)
+  · exact Or.inl (Props.C09.formatted_conts_ok f hk h0 l hl)
+  · exact Or.inl (h.2.2 l hl).2
+  · exact Or.inl (h.2.2 l hl).2
 
 theorem plain_lineOk (s : Str) (hp : plain s = true) (hl : lastP isSpace s = false) : Props.C06.lineOk s = true := by
   have hb : ∀ c ∈ s, isBoundary c = false := fun c hc => by
@@ -170,6 +161,45 @@ theorem rawLine_ok (l : TLine) (h : tlineOk l = true) :
         rw [hc] at this; cases this
   | n + 3 => rw [hk] at h; simp at h
 
+theorem item_rawLine_ok (l : TLine) (h : itemOk l = true) :
+    Props.C06.lineOk (rawLine l) = true ∧ isCont (rawLine l) = true := by
+  have hf := Props.C09.item_facts l h
+  have hd := Props.C09.content_decomp l.content
+  have hne : l.content ≠ [] := by
+    intro e
+    have : itemText l = [] := by unfold itemText; rw [e]; rfl
+    exact hf.ss.ne this
+  have hlast : lastP isSpace l.content = false := by
+    have htr := hf.ss.tr
+    simp only [trimmed, Bool.and_eq_true, Bool.not_eq_true'] at htr
+    have e : itemText l = l.content.dropWhile (· == ' ') := rfl
+    rw [hd, ← e]
+    generalize (List.takeWhile (· == ' ') l.content).length = k
+    induction k with
+    | zero => simpa using htr.2
+    | succ k ih =>
+      rw [List.replicate_succ, List.cons_append, lastP_cons_ne_nil _ _ _ (by
+        intro e2
+        have := List.append_eq_nil_iff.mp e2
+        exact hf.ss.ne this.2)]
+      exact ih
+  rw [hf.raw]
+  constructor
+  · apply plain_lineOk
+    · have := hf.pl
+      simp only [plain, List.all_cons, Bool.and_eq_true] at this ⊢
+      exact ⟨by decide, this⟩
+    · rw [lastP_cons_ne_nil _ _ _ hne]; exact hlast
+  · simp only [isCont, headP, Bool.and_eq_true, Bool.not_eq_true', decide_true, Bool.true_or, true_and]
+    have hl : lastP (fun c => !isSpace c) l.content = true := Props.C06.lastP_false_of hne hlast
+    obtain ⟨a, c, e, hc⟩ := lastP_mem hl
+    cases hb : isBlank (' ' :: l.content) with
+    | false => rfl
+    | true =>
+      have := List.all_eq_true.mp hb c (by rw [e]; simp)
+      simp only [Bool.not_eq_true'] at hc
+      rw [hc] at this; cases this
+
 theorem toField_ok (f : Dep5.Field) (h : fieldOk f = true) : Props.C06.fieldOkAny (toField f) = true := by
   have hconts := conts_ok f h
   simp only [fieldOk, Bool.and_eq_true] at h
@@ -182,7 +212,9 @@ theorem toField_ok (f : Dep5.Field) (h : fieldOk f = true) : Props.C06.fieldOkAn
     exact hlab.1
   · intro c hc
     obtain ⟨l, hl, rfl⟩ := List.mem_map.mp hc
-    exact rawLine_ok l (hconts l hl)
+    rcases hconts l hl with h1 | h1
+    · exact rawLine_ok l h1
+    · exact item_rawLine_ok l h1
   · intro c hc
     by_cases he : f.first.isEmpty = true
     · simp [he] at hc
